@@ -69,6 +69,8 @@ def rand_trunc(rnd, m, p):
     t = {"hh": -1, "mi": -1, "ss": -1, "dom": 0, "doy": 0, "dow": 0, "woy": 0, "zu": True, "zh": 0, "zm": 0}
     if "h" in shape:
         t["hh"] = rnd.choice([0, 6, 12, 23, rnd.randint(0, 23), p["hh"] % 24])
+        if shape == "h" and rnd.random() < 0.08:
+            t["hh"] = 24          # T24: the end of the day
     if "m" in shape:
         t["mi"] = rnd.choice([0, 30, 59, rnd.randint(0, 59), max(p["mi"], 0)])
     if "s" in shape and shape != "hms"[:0]:
